@@ -135,36 +135,37 @@ type retRec struct {
 
 // Eval is one abstract evaluation of an entry point in a context.
 type Eval struct {
-	P           *Program
-	G           *Globals
-	Ctx         *Ctx
-	objs        int
-	Events      []Event
-	Calls       []CallRec
-	Exits       []Exit
-	Relied      map[*ssa.Global]bool // globals whose initial content was used (must be initialiser-only)
-	Touched     map[*ssa.Global]bool // globals used in a way the evaluator does not model (address used, unknown content loaded)
-	Notes       []string
-	Instrs      int
-	Loops       []LoopInfo
-	stack       []*ssa.Function
-	initMode    bool
-	builderMode bool // evaluating a once-run builder: stores to globals are tracked locally
-	GStore      map[*ssa.Global]AV
-	activeLoops []*loopCtx
-	GlobalInit  map[*ssa.Global]AV
-	GlobalObj   State
-	Digests     map[string]DigestInfo
-	refs        map[string]Layout // loop-invariant values referenced at offsets affine in t
-	mapGlobals  []*Obj
-	Reads       []ReadInfo
-	errObj      map[ssa.Instruction]*Obj                // per read call: what is known about its error on the current path
-	lastRets    []retRec                                // the individual returns of the function evaluated last
-	lkObj       map[ssa.Instruction]*Obj                // per word lookup: did it hit on the current path?
-	arrBuf      map[*Obj]*Obj                           // local byte array (cell) -> the buffer object its slices share
-	sites       []ssa.Instruction                       // call sites of the module functions being evaluated (innermost last)
-	alts        map[ssa.Instruction]map[*Obj]altContent // per guarded call: object contents on its success / failure return
-	LoopHits    map[ssa.Instruction]bool                // per word lookup inside a loop: every path to the back edge passed its hit edge
+	P            *Program
+	G            *Globals
+	Ctx          *Ctx
+	objs         int
+	Events       []Event
+	Calls        []CallRec
+	Exits        []Exit
+	Relied       map[*ssa.Global]bool // globals whose initial content was used (must be initialiser-only)
+	Touched      map[*ssa.Global]bool // globals used in a way the evaluator does not model (address used, unknown content loaded)
+	Notes        []string
+	Instrs       int
+	Loops        []LoopInfo
+	stack        []*ssa.Function
+	initMode     bool
+	builderMode  bool // evaluating a once-run builder: stores to globals are tracked locally
+	GStore       map[*ssa.Global]AV
+	activeLoops  []*loopCtx
+	GlobalInit   map[*ssa.Global]AV
+	GlobalObj    State
+	Digests      map[string]DigestInfo
+	refs         map[string]Layout // loop-invariant values referenced at offsets affine in t
+	mapGlobals   []*Obj
+	Reads        []ReadInfo
+	errObj       map[ssa.Instruction]*Obj                // per read call: what is known about its error on the current path
+	lastRets     []retRec                                // the individual returns of the function evaluated last
+	lkObj        map[ssa.Instruction]*Obj                // per word lookup: did it hit on the current path?
+	arrBuf       map[*Obj]*Obj                           // local byte array (cell) -> the buffer object its slices share
+	rawStrParams int                                     // number of string parameters of the entry point
+	sites        []ssa.Instruction                       // call sites of the module functions being evaluated (innermost last)
+	alts         map[ssa.Instruction]map[*Obj]altContent // per guarded call: object contents on its success / failure return
+	LoopHits     map[ssa.Instruction]bool                // per word lookup inside a loop: every path to the back edge passed its hit edge
 }
 
 type LoopInfo struct {
@@ -202,6 +203,9 @@ func (e *Eval) Run(fn *ssa.Function) (res []AV, st State) {
 	args := make([]AV, len(fn.Params))
 	for i, p := range fn.Params {
 		args[i] = e.bindParam(p)
+		if sv, ok := args[i].(StrV); ok && sv.Kind == skRaw {
+			e.rawStrParams++
+		}
 	}
 	defer func() {
 		if r := recover(); r != nil {
@@ -521,6 +525,13 @@ func (e *Eval) joinPreds(fr *frame, b *ssa.BasicBlock, within map[*ssa.BasicBloc
 			cur = e.joinStatesE(cur, s)
 		}
 	}
+	if len(preds) >= 2 {
+		var ins []State
+		for _, p := range preds {
+			ins = append(ins, fr.edge[[2]*ssa.BasicBlock{p, b}])
+		}
+		e.joinCondErr(cur, ins)
+	}
 	// `if c { sb.WriteString(x) }`: the two incoming builder contents differ by a suffix written
 	// on one arm only; keep it as a conditional part instead of giving up
 	if len(preds) == 2 {
@@ -624,6 +635,111 @@ func (e *Eval) joinStatesE(a, b State) State {
 		}
 	}
 	return out
+}
+
+// joinCondErr looks, at a merge of several paths, for error cells that the pairwise join
+// lost and that still have the form "the error of call S if S failed, otherwise W":
+//
+//	if cerr := f.Close(); cerr != nil && err == nil { err = cerr }
+//
+// reaches its end over three paths — Close succeeded (err untouched: the error of S, tested or
+// not), Close failed and S succeeded (err = cerr), both failed (err untouched, S failed).
+// On every path the cell holds either the error of S, or — S known to have succeeded — one
+// and the same other value W; where it holds the error of S and S may have succeeded, the
+// value is then nil, which must also be what W is there (W is nil, or the error of a call
+// known to have succeeded on that path).
+func (e *Eval) joinCondErr(out State, ins []State) {
+	for o, c := range out {
+		cc, ok := c.(CellC)
+		if o.Kind != okCell || !ok {
+			continue
+		}
+		if _, isTop := cc.V.(TopV); !isTop {
+			continue
+		}
+		vals := make([]ErrV, len(ins))
+		all := true
+		for i, s := range ins {
+			ci, ok := s[o].(CellC)
+			if !ok {
+				all = false
+				break
+			}
+			ev, ok := ci.V.(ErrV)
+			if !ok {
+				all = false
+				break
+			}
+			vals[i] = ev
+		}
+		if !all {
+			continue
+		}
+		known := func(s State, site ssa.Instruction) (val, ok bool) {
+			so := e.errObj[site]
+			if so == nil {
+				return false, false
+			}
+			c, isCell := s[so].(CellC)
+			if !isCell {
+				return false, false
+			}
+			bv, isB := c.V.(BoolV)
+			return bv.Val, isB && bv.Known
+		}
+		for _, cand := range vals {
+			if cand.Kind != ekFrom || cand.Site == nil {
+				continue
+			}
+			S := cand.Site
+			var W *ErrV
+			good := true
+			var needNil []State
+			for i, v := range vals {
+				succ, kn := known(ins[i], S)
+				if v.Kind == ekFrom && v.Site == S {
+					if !(kn && !succ) {
+						needNil = append(needNil, ins[i])
+					}
+					continue
+				}
+				if !kn || !succ {
+					good = false
+					break
+				}
+				if W == nil {
+					w := v
+					W = &w
+				} else if W.String() != v.String() {
+					good = false
+					break
+				}
+			}
+			if !good || W == nil {
+				continue
+			}
+			for _, s := range needNil {
+				switch {
+				case W.Kind == ekNil:
+				case W.Kind == ekFrom && W.Site != nil:
+					if succ, kn := known(s, W.Site); !kn || !succ {
+						good = false
+					}
+				default:
+					good = false
+				}
+			}
+			if !good {
+				continue
+			}
+			els := *W
+			if len(needNil) > 0 {
+				els.NonNil = false
+			}
+			out[o] = CellC{ErrV{Kind: ekCond, From: cand.From, Site: S, Else: &els}}
+			break
+		}
+	}
 }
 
 func joinStates(a, b State) State {
@@ -2016,10 +2132,49 @@ func (e *Eval) instr(fr *frame, in ssa.Instruction, st State) {
 				}
 			}
 		}
+		if rv, ok := base.(ResV); ok && rv.Kind == "http.Request" && rv.O != nil {
+			if pt, ok := x.X.Type().Underlying().(*types.Pointer); ok {
+				if stt, ok := pt.Elem().Underlying().(*types.Struct); ok && stt.Field(x.Field).Name() != "URL" {
+					// headers, body, method …: no longer the plain GET of the URL
+					e.setContent(fr, st, rv.O, CellC{KBool(true)})
+				}
+			}
+		}
 		if p, ok := base.(PtrV); ok && p.O != nil && p.O.Kind == okVec && p.O.Struct {
 			if vc, ok := st[p.O].(VecC); ok && x.Field < len(vc.Elems) {
 				fr.env[x] = PtrV{Elem: &ElemRef{Base: base, Idx: CInt(int64(x.Field))}}
 				break
+			}
+		}
+		if p, ok := base.(PtrV); ok && p.Elem != nil {
+			// a field of an element of a package-level table of structs
+			if gp, ok := p.Elem.Base.(PtrV); ok && gp.G != nil && e.initMode {
+				// the package initialiser fills the table in place: element Idx, field x.Field
+				fr.env[x] = PtrV{Elem: &ElemRef{Base: base, Idx: CInt(int64(x.Field))}}
+				break
+			}
+			if vec, ok := p.Elem.Base.(VecV); ok {
+				if c, ok := p.Elem.Idx.Const(); ok && c >= 0 && c < int64(len(vec.Elems)) {
+					if sv, ok := vec.Elems[c].(VecV); ok && x.Field < len(sv.Elems) {
+						fr.env[x] = PtrV{Elem: &ElemRef{Base: sv, Idx: CInt(int64(x.Field))}}
+						break
+					}
+				}
+				// the element is not a single one: the field of each candidate, joined when loaded
+				var fields []AV
+				okAll := len(vec.Elems) > 0
+				for _, el := range vec.Elems {
+					sv, ok := el.(VecV)
+					if !ok || x.Field >= len(sv.Elems) {
+						okAll = false
+						break
+					}
+					fields = append(fields, sv.Elems[x.Field])
+				}
+				if okAll {
+					fr.env[x] = PtrV{Elem: &ElemRef{Base: VecV{fields}, Idx: p.Elem.Idx}}
+					break
+				}
 			}
 		}
 		e.escape(fr, st, base, "field address")
@@ -2771,6 +2926,28 @@ func (e *Eval) compareInd(x *ssa.BinOp, iv IndV, other AV, op token.Token) AV {
 	}
 }
 
+// sentenceNonEmpty: s is the one string argument of the entry point (or its NFKD form) in a
+// context where the tokeniser yields at least two tokens.
+func (e *Eval) sentenceNonEmpty(s StrV) bool {
+	if s.Kind == skNFKD {
+		inner, ok := s.X.(StrV)
+		if !ok {
+			return false
+		}
+		s = inner
+	}
+	if s.Kind != skRaw || e.rawStrParams != 1 || e.Ctx == nil {
+		return false
+	}
+	switch {
+	case e.Ctx.TokCount != nil:
+		return *e.Ctx.TokCount >= 2
+	case e.Ctx.SizeRange != nil && e.Ctx.SizeKind == "N":
+		return e.Ctx.SizeRange[0] >= 2
+	}
+	return false
+}
+
 func (e *Eval) compare(fr *frame, x *ssa.BinOp, a, b AV) AV {
 	T := fr.T()
 	if cv, ok := a.(CmpV); ok {
@@ -2831,6 +3008,11 @@ func (e *Eval) compare(fr *frame, x *ssa.BinOp, a, b AV) AV {
 	}
 	if sa, ok := a.(StrV); ok {
 		if sb, ok := b.(StrV); ok {
+			// the sentence that the tokeniser cuts into at least two tokens is not empty (nor is
+			// its NFKD form: normalisation never deletes a character)
+			if (x.Op == token.EQL || x.Op == token.NEQ) && (sa.Kind == skConst && sa.S == "" && e.sentenceNonEmpty(sb) || sb.Kind == skConst && sb.S == "" && e.sentenceNonEmpty(sa)) {
+				return KBool(x.Op == token.NEQ)
+			}
 			if sa.Kind == skConst && sb.Kind == skConst {
 				switch x.Op {
 				case token.EQL:
@@ -2869,7 +3051,10 @@ func (e *Eval) compare(fr *frame, x *ssa.BinOp, a, b AV) AV {
 				return KBool(x.Op == token.NEQ)
 			}
 		}
-		if _, ok := o.(MapV); ok {
+		if mv, ok := o.(MapV); ok {
+			if e.G != nil && mv.G != nil && e.G.MapNonNil[mv.G] {
+				return KBool(x.Op == token.NEQ) // T3: read only after it was built with make
+			}
 			return BoolV{C: &Cond{Kind: "isnil", Op: x.Op, A: o}}
 		}
 		return BoolV{C: &Cond{Kind: "isnil", Op: x.Op, A: o}}
@@ -3587,6 +3772,39 @@ func (e *Eval) store(fr *frame, x *ssa.Store, st State) {
 }
 
 func (e *Eval) storeElem(fr *frame, x *ssa.Store, el *ElemRef, v AV, st State) {
+	if bp, ok := el.Base.(PtrV); ok && bp.Elem != nil && e.initMode {
+		// field el.Idx of element bp.Elem.Idx of a package-level array of structs, in its initialiser
+		if gp, ok := bp.Elem.Base.(PtrV); ok && gp.G != nil {
+			if at, ok := gp.G.Type().Underlying().(*types.Pointer).Elem().Underlying().(*types.Array); ok && at.Len() <= 4096 {
+				if stt, ok := at.Elem().Underlying().(*types.Struct); ok {
+					i, oki := bp.Elem.Idx.Const()
+					f, okf := el.Idx.Const()
+					if oki && okf && i >= 0 && i < at.Len() && f >= 0 && f < int64(stt.NumFields()) {
+						if e.GlobalInit == nil {
+							e.GlobalInit = map[*ssa.Global]AV{}
+						}
+						cur, _ := e.GlobalInit[gp.G].(VecV)
+						if cur.Elems == nil {
+							cur.Elems = make([]AV, at.Len())
+							for k := range cur.Elems {
+								cur.Elems[k] = e.zeroOf(at.Elem())
+							}
+						} else {
+							cur.Elems = append([]AV{}, cur.Elems...)
+						}
+						sv, _ := cur.Elems[i].(VecV)
+						if len(sv.Elems) == stt.NumFields() {
+							ne := append([]AV{}, sv.Elems...)
+							ne[f] = v
+							cur.Elems[i] = VecV{ne}
+							e.GlobalInit[gp.G] = cur
+							return
+						}
+					}
+				}
+			}
+		}
+	}
 	switch b := el.Base.(type) {
 	case PtrV:
 		if b.O != nil {
